@@ -5,6 +5,11 @@ import props as P
 VERIF = os.path.dirname(os.path.dirname(os.path.abspath(__file__)))
 REPO = os.environ.get("VERIF_REPO", "/repo")
 LEAN = os.path.join(VERIF, "lean")
+if os.path.abspath(REPO) != "/repo":
+    # self-test against a scratch tree: use a private copy of the Lean project so that the
+    # regenerated facts of the scratch tree never disturb the real build directory
+    LEAN = os.environ.get("VERIF_LEAN_COPY", "/tmp/verif-lean-" + hashlib.sha1(os.path.abspath(REPO).encode()).hexdigest()[:8])
+    subprocess.run(["rsync", "-a", "--delete", os.path.join(VERIF, "lean") + "/", LEAN + "/"], check=True)
 HARNESS = os.path.join(VERIF, "harness")
 GOENV = dict(os.environ, GOFLAGS="-mod=mod", GOPROXY="off", GOSUMDB="off", GOTOOLCHAIN="local",
              GOMEMLIMIT="8GiB")
